@@ -199,7 +199,7 @@ theorem C05_canonical (a b : Database) (h : DbFine a b) (hk : KeysDistinct a) :
 
 /-- non-vacuity and an instance: one message whose two signals (and one signal's two value descriptions) are listed in
 the two possible orders -/
-def exSig (nm : BStr) (st : Nat) (vs : List DVal) : DSignal where
+def canonExSig (nm : BStr) (st : Nat) (vs : List DVal) : DSignal where
   name := nm
   start := st
   length := 4
@@ -216,7 +216,7 @@ def exSig (nm : BStr) (st : Nat) (vs : List DVal) : DSignal where
   vds := vs
   receivers := []
 
-def exMsg (ss : List DSignal) : DMessage where
+def canonExMsg (ss : List DSignal) : DMessage where
   name := []
   id := 7
   extended := false
@@ -224,11 +224,11 @@ def exMsg (ss : List DSignal) : DMessage where
   signals := ss
   sender := []
 
-def exDb (flip : Bool) : Database :=
-  let s1 := exSig [65] 0 (if flip then [⟨1, []⟩, ⟨0, []⟩] else [⟨0, []⟩, ⟨1, []⟩])
-  let s2 := exSig [66] 4 []
-  { version := [], nodes := [], messages := [exMsg (if flip then [s2, s1] else [s1, s2])] }
+def canonExDb (flip : Bool) : Database :=
+  let s1 := canonExSig [65] 0 (if flip then [⟨1, []⟩, ⟨0, []⟩] else [⟨0, []⟩, ⟨1, []⟩])
+  let s2 := canonExSig [66] 4 []
+  { version := [], nodes := [], messages := [canonExMsg (if flip then [s2, s1] else [s1, s2])] }
 
-example : sortDescriptors (exDb true) = sortDescriptors (exDb false) := by decide +kernel
+example : sortDescriptors (canonExDb true) = sortDescriptors (canonExDb false) := by decide +kernel
 
 end CanVerif
